@@ -17,11 +17,211 @@ pub struct Case {
     pub b: G,
     pub xf: Xf,
     pub vsel: u64,
+    /// sub-case: two segments with arbitrary double coordinates (a0, a1, b0, b1); decided by exact predicates on the doubles
+    #[serde(default)]
+    pub seg: Option<[(f64, f64); 4]>,
     #[serde(skip)]
     pub trusted: bool,
 }
 
 pub struct C01;
+
+type P2 = (f64, f64);
+
+/// Exact DE-9IM matrix of two non-degenerate segments with f64 end points (orientation signs by exact dyadic arithmetic,
+/// everything else by exact comparisons of the doubles themselves).
+pub fn seg_matrix(a0: P2, a1: P2, b0: P2, b1: P2) -> Matrix {
+    use crate::exact::big::orient_f64 as o;
+    let (o1, o2, o3, o4) = (o(a0, a1, b0), o(a0, a1, b1), o(b0, b1, a0), o(b0, b1, a1));
+    // disjoint segments: II IB IE / BI BB BE / EI EB EE
+    let mut m = Matrix([[-1, -1, 1], [-1, -1, 0], [1, 0, 2]]);
+    if o1 == 0 && o2 == 0 && o3 == 0 && o4 == 0 {
+        // one supporting line: positions along it are ordered like x (like y on a vertical line)
+        let key = |p: P2| if a0.0 != a1.0 { p.0 } else { p.1 };
+        let (alo, ahi) = (key(a0).min(key(a1)), key(a0).max(key(a1)));
+        let (blo, bhi) = (key(b0).min(key(b1)), key(b0).max(key(b1)));
+        let f = |c: bool, d: i8| if c { d } else { -1 };
+        m.0[0][0] = f(alo.max(blo) < ahi.min(bhi), 1);
+        m.0[0][1] = f((blo > alo && blo < ahi) || (bhi > alo && bhi < ahi), 0);
+        m.0[1][0] = f((alo > blo && alo < bhi) || (ahi > blo && ahi < bhi), 0);
+        m.0[1][1] = f(alo == blo || alo == bhi || ahi == blo || ahi == bhi, 0);
+        m.0[0][2] = f(alo < blo || ahi > bhi, 1);
+        m.0[2][0] = f(blo < alo || bhi > ahi, 1);
+        m.0[1][2] = f(alo < blo || alo > bhi || ahi < blo || ahi > bhi, 0);
+        m.0[2][1] = f(blo < alo || blo > ahi || bhi < alo || bhi > ahi, 0);
+        return m;
+    }
+    // different supporting lines: at most one common point
+    let within = |p: P2, s0: P2, s1: P2| p.0 >= s0.0.min(s1.0) && p.0 <= s0.0.max(s1.0) && p.1 >= s0.1.min(s1.1) && p.1 <= s0.1.max(s1.1);
+    let common = if o3 == 0 && within(a0, b0, b1) {
+        Some(a0)
+    } else if o4 == 0 && within(a1, b0, b1) {
+        Some(a1)
+    } else if o1 == 0 && within(b0, a0, a1) {
+        Some(b0)
+    } else if o2 == 0 && within(b1, a0, a1) {
+        Some(b1)
+    } else {
+        None
+    };
+    match common {
+        Some(x) => {
+            let pa = if x == a0 || x == a1 { 1 } else { 0 };
+            let pb = if x == b0 || x == b1 { 1 } else { 0 };
+            m.0[pa][pb] = 0;
+        }
+        None => {
+            if o1 * o2 < 0 && o3 * o4 < 0 {
+                m.0[0][0] = 0;
+            }
+        }
+    }
+    m
+}
+
+/// exact value (rounded once) of the orientation determinant of (a, b, c)
+fn det_f64(a: P2, b: P2, c: P2) -> f64 {
+    use crate::exact::big::Dy;
+    let d = |v: f64| Dy::from_f64(v);
+    let l = d(b.0).sub(&d(a.0)).mul(&d(c.1).sub(&d(a.1)));
+    let r = d(b.1).sub(&d(a.1)).mul(&d(c.0).sub(&d(a.0)));
+    l.sub(&r).to_f64()
+}
+
+/// How far (in units of the ulp of the largest coordinate) the nearest end point that is NOT on the other segment's line lies
+/// from that line; None when every end point is either exactly on the other line or more than 2^30 ulp away.
+fn seg_offline_ulps(s: &[P2; 4]) -> Option<f64> {
+    let m = s.iter().map(|p| p.0.abs().max(p.1.abs())).fold(0.0, f64::max);
+    let ulp = m * f64::EPSILON;
+    let mut best: Option<f64> = None;
+    for (e, l0, l1) in [(s[0], s[2], s[3]), (s[1], s[2], s[3]), (s[2], s[0], s[1]), (s[3], s[0], s[1])] {
+        let det = det_f64(l0, l1, e).abs();
+        if det == 0.0 {
+            continue;
+        }
+        let dist = det / (l1.0 - l0.0).hypot(l1.1 - l0.1);
+        let u = dist / ulp;
+        if best.map_or(true, |b| u < b) {
+            best = Some(u);
+        }
+    }
+    best.filter(|u| *u <= (1u64 << 30) as f64)
+}
+
+fn nudge(x: f64, n: i64) -> f64 {
+    if n == 0 {
+        x
+    } else if x == 0.0 {
+        n as f64 * 2f64.powi(-60)
+    } else {
+        f64::from_bits((x.to_bits() as i64 + n) as u64)
+    }
+}
+
+/// Two segments with double coordinates that are NOT images of a small lattice: generic doubles, end points a few (or a few
+/// thousand) ulp off the other segment, shared end points with nearly parallel directions, nearly equal segments, directions
+/// of mixed magnitude, and exactly collinear dyadic configurations.
+fn seg_strategy() -> impl Strategy<Value = [P2; 4]> {
+    let coord = || {
+        prop_oneof![
+            3 => (-64i32..=64).prop_map(|k| k as f64 / 8.0),
+            3 => -8.0f64..8.0,
+            1 => (-8.0f64..8.0).prop_map(|v| 1.0e6 + v),
+            1 => (-8.0f64..8.0).prop_map(|v| v * 1.0e-3),
+        ]
+    };
+    let pt = move || (coord(), coord());
+    // ulp steps: none, a few, or a power of two up to 2^24
+    let step = || prop_oneof![2 => Just(0i64), 2 => -3i64..=3, 5 => (2u32..=24, any::<bool>()).prop_map(|(k, neg)| if neg { -(1i64 << k) } else { 1i64 << k })];
+    (prop_oneof![Just(0u8), Just(1u8), Just(1u8), Just(2u8), Just(2u8), Just(3u8), Just(3u8), Just(4u8), Just(4u8), Just(5u8), Just(6u8), Just(6u8)], pt(), pt(), pt(), pt(), (step(), step(), step(), step()), (0.0f64..=1.0, 0u8..4), (-6i32..=6, -6i32..=6, -6i32..=6, -6i32..=6))
+        .prop_filter_map("degenerate segment", |(mode, b0, b1, r, r2, (n0, n1, n2, n3), (t, tsel), (i0, i1, i2, i3))| {
+            let t = match tsel { 0 => 0.0, 1 => 1.0, 2 => 0.5, _ => t };
+            let on_b = (b0.0 + t * (b1.0 - b0.0), b0.1 + t * (b1.1 - b0.1));
+            let s: [P2; 4] = match mode {
+                0 => [r, r2, b0, b1],
+                // an end point on / next to the other segment, the far end anywhere or mirrored to the other side
+                1 => [(nudge(on_b.0, n0), nudge(on_b.1, n1)), r, b0, b1],
+                2 => [(nudge(on_b.0, n0), nudge(on_b.1, n1)), (2.0 * on_b.0 - r.0, 2.0 * on_b.1 - r.1), b0, b1],
+                // a shared end point, nearly (or exactly) parallel directions
+                3 => {
+                    let k = [0.5, 1.0, 2.0, 1.5][tsel as usize];
+                    [b0, (nudge(b0.0 + k * (b1.0 - b0.0), n0), nudge(b0.1 + k * (b1.1 - b0.1), n1)), b0, b1]
+                }
+                // nearly equal segments
+                4 => [(nudge(b0.0, n0), nudge(b0.1, n1)), (nudge(b1.0, n2), nudge(b1.1, n3)), b0, b1],
+                // directions of mixed magnitude: far ends a tiny distance apart next to the origin, or the apex far away
+                5 => {
+                    let tiny = [1e-20, 1e-17, 2f64.powi(-60), 1e-9][tsel as usize];
+                    let apex = if n0 & 1 == 0 { (1.0, 1.0) } else { (1e17, 1e17) };
+                    [apex, (tiny * i0 as f64, i1 as f64 * 0.5), apex, (tiny * i2 as f64, i1 as f64 * 0.5 + (i3 / 6) as f64)]
+                }
+                // exactly collinear (dyadic steps along one direction), overlapping / touching / apart / contained
+                _ => {
+                    let d = ((i0 as f64) / 4.0, (i1 as f64) / 4.0);
+                    let at = |k: i32| (b0.0.round() + k as f64 * d.0, b0.1.round() + k as f64 * d.1);
+                    [at(0), at(i2.abs() + 1), at(i3), at(i3 + (n0.rem_euclid(5) as i32) + 1)]
+                }
+            };
+            let fin = s.iter().all(|p| p.0.is_finite() && p.1.is_finite());
+            if !fin || s[0] == s[1] || s[2] == s[3] {
+                return None;
+            }
+            Some(s)
+        })
+}
+
+fn check_seg(s: &[P2; 4], obs: &mut Obs) {
+    use geo::{Coord, Line, LineString, MultiLineString};
+    if !s.iter().all(|p| p.0.is_finite() && p.1.is_finite() && p.0.abs() <= 1e100 && p.1.abs() <= 1e100) || s[0] == s[1] || s[2] == s[3] {
+        obs.label("skipped:out-of-domain");
+        return;
+    }
+    obs.label("segments-in-doubles");
+    let want = seg_matrix(s[0], s[1], s[2], s[3]);
+    debug_assert_eq!(seg_matrix(s[2], s[3], s[0], s[1]), want.transpose());
+    let shape = if want.0[0][0] == 1 { "collinear-overlap" } else if want.0[0][0] == 0 { "proper-crossing" } else if want.0[1][1] == 0 || want.0[0][1] == 0 || want.0[1][0] == 0 { "end-point-contact" } else { "disjoint" };
+    obs.label(format!("seg:{shape}"));
+    if shape != "disjoint" {
+        obs.nontrivial();
+    }
+    // input class for the known-findings matcher: some end point lies off the other segment's line by no more than a few
+    // ulp of the largest coordinate (but not on it): coincidences that exist only after rounding
+    let off = seg_offline_ulps(s);
+    let cls = match off {
+        Some(u) if u <= 4.0 => "|an-end-point-within-4-ulp-of-the-other-line",
+        _ => "",
+    };
+    match off {
+        Some(u) if u <= 4.0 => obs.label("seg:off-line<=4ulp"),
+        Some(u) if u <= 1024.0 => obs.label("seg:off-line<=2^10ulp"),
+        Some(_) => obs.label("seg:off-line<=2^30ulp"),
+        None => obs.label("seg:well-separated-or-exactly-on"),
+    }
+    let c = |p: P2| Coord { x: p.0, y: p.1 };
+    let (la, lb) = (Line::new(c(s[0]), c(s[1])), Line::new(c(s[2]), c(s[3])));
+    let (sa, sb) = (LineString::from(vec![c(s[0]), c(s[1])]), LineString::from(vec![c(s[3]), c(s[2])]));
+    let (ma, gb) = (MultiLineString::new(vec![sa.clone()]), geo::Geometry::Line(lb));
+    let ctx = || format!("A=LINE({:?} {:?},{:?} {:?}) B=LINE({:?} {:?},{:?} {:?}) nearest off-line end point: {:?} ulp", s[0].0, s[0].1, s[1].0, s[1].1, s[2].0, s[2].1, s[3].0, s[3].1, off);
+    let runs: Vec<(&str, Result<Matrix, crate::engine::PanicInfo>, bool)> = vec![
+        ("Line/Line", guard(std::panic::AssertUnwindSafe(|| matrix_of(&la.relate(&lb)))), false),
+        ("Line/Line(transposed)", guard(std::panic::AssertUnwindSafe(|| matrix_of(&lb.relate(&la)))), true),
+        ("LineString/LineString(reversed)", guard(std::panic::AssertUnwindSafe(|| matrix_of(&sa.relate(&sb)))), false),
+        ("MultiLineString/Geometry", guard(std::panic::AssertUnwindSafe(|| matrix_of(&ma.relate(&gb)))), false),
+        ("Geometry/LineString", guard(std::panic::AssertUnwindSafe(|| matrix_of(&gb.relate(&sa)))), true),
+    ];
+    for (name, r, transposed) in runs {
+        let w = if transposed { want.transpose() } else { want.clone() };
+        match r {
+            Ok(m) => {
+                obs.cmp();
+                if m != w {
+                    obs.fail(format!("relate[segments-in-doubles{cls}]:{name}|matrix"), format!("got {} want {} ({shape}); {}", m.to_string9(), w.to_string9(), ctx()));
+                }
+            }
+            Err(p) => obs.fail(format!("relate[segments-in-doubles{cls}]:{name}|panic|{}", p.site()), format!("{} {}", p, ctx())),
+        }
+    }
+}
 
 pub fn relate_concrete(ga: &geo::Geometry<f64>, gb: &geo::Geometry<f64>) -> Result<Matrix, crate::engine::PanicInfo> {
     guard(std::panic::AssertUnwindSafe(|| {
@@ -161,7 +361,7 @@ impl Property for C01 {
     const ID: &'static str = "C01";
 
     fn strategy(_tier: Tier) -> BoxedStrategy<Case> {
-        let general = (pair_strategy(), xf_strategy(), any::<u64>()).prop_map(|(Pair { a, b }, xf, vsel)| Case { a, b, xf, vsel, trusted: true });
+        let general = (pair_strategy(), xf_strategy(), any::<u64>()).prop_map(|(Pair { a, b }, xf, vsel)| Case { a, b, xf, vsel, seg: None, trusted: true });
         // thin wedges at large magnitude (1 case in 16): two edges leaving a shared vertex in nearly - or exactly - the same
         // direction, with coordinates around 2^26..2^28 so that products of coordinate differences exceed 2^53 (a plain f64 cross
         // product cannot order the edge ends around the node; the exact oracle works on the integers). Only D4 symmetries are
@@ -195,10 +395,11 @@ impl Property for C01 {
                 if !(in_relate_domain(&a) && in_relate_domain(&b)) {
                     return None;
                 }
-                Some(Case { a, b, xf: Xf { d4, k: 0, tx: 0, ty: 0 }, vsel, trusted: true })
+                Some(Case { a, b, xf: Xf { d4, k: 0, tx: 0, ty: 0 }, vsel, seg: None, trusted: true })
             },
         );
-        prop_oneof![15 => general.boxed(), 1 => wedge.boxed()].boxed()
+        let segs = seg_strategy().prop_map(|s| Case { a: G::MultiPoint(vec![]), b: G::MultiPoint(vec![]), xf: Xf::ID, vsel: 0, seg: Some(s), trusted: true });
+        prop_oneof![15 => general.boxed(), 1 => wedge.boxed(), 1 => segs.boxed()].boxed()
     }
 
     fn quota(tier: Tier) -> u64 {
@@ -237,14 +438,24 @@ impl Property for C01 {
             "bbox:nested",
             "empty-operand",
             "thin-wedge-at-2^26..2^28",
+            "segments-in-doubles",
+            "seg:off-line<=4ulp",
+            "seg:off-line<=2^10ulp",
         ]
     }
 
     fn show(c: &Case) -> Value {
-        json!({"a": wkt(&c.a), "b": wkt(&c.b), "xf": c.xf, "vsel": c.vsel})
+        match &c.seg {
+            Some(s) => json!({"segments": s}),
+            None => json!({"a": wkt(&c.a), "b": wkt(&c.b), "xf": c.xf, "vsel": c.vsel}),
+        }
     }
 
     fn check(c: &Case, obs: &mut Obs) {
+        if let Some(s) = &c.seg {
+            check_seg(s, obs);
+            return;
+        }
         if !c.trusted && !(in_relate_domain(&c.a) && in_relate_domain(&c.b)) {
             obs.label("skipped:out-of-domain");
             return;
